@@ -13,6 +13,8 @@ CONSTANTS
  DevF13 = FALSE
  DevVerKey = FALSE
  DevDangEnd = FALSE
+ DevNoAtomResname = FALSE
+ DevOrderedPairs = FALSE
  DevDegree = FALSE
 INVARIANT FinalIsExpected
 INVARIANT CallsSound
